@@ -165,16 +165,31 @@ def step (env : Env) (line : String) : Env × String :=
       (env, match v with | .safe => "safe" | .rejected => "rejected" | .deadRead => "dead-read" | .badProgram => "bad-program")
     | none => (env, "bad-request acts")
   | some [.atom "hist", .atom wn, .atom rn, v] =>
+    let op (val : Val) : String := match encodeTop env (.named wn) val with
+      | .ok b => decResponse env (.named rn) b
+      | .err e => s!"encerr {showErr e}"
+      | .panic w => s!"encpanic {w}"
     match env.find wn, env.find rn, valOfSexp v with
     | some (.record dw), some (.record dr), some val =>
       let exp := match expectedRead dw dr (normalize env (.named wn) val) with
         | .ok x => s!"ok {showVal x}"
         | .error e => s!"err {showErr e}"
-      let op := match encodeTop env (.named wn) val with
-        | .ok b => decResponse env (.named rn) b
-        | .err e => s!"encerr {showErr e}"
-        | .panic w => s!"encpanic {w}"
-      (env, s!"{exp} ## {op} ## {if onOneHistory dw dr then "one-history" else "NOT-one-history"} ## {alignmentClass dw dr}")
+      (env, s!"{exp} ## {op val} ## {if onOneHistory dw dr then "one-history" else "NOT-one-history"} ## {alignmentClass dw dr}")
+    | some (.enum _ srtw csw), some (.enum nr srtr csr), some (.ctor idx fields) =>
+      -- evolution steps on an enum variant: constructor by wire index (C13), fields by the variant's own history
+      match findCtorWire (wireCtors srtw csw) idx with
+      | none => (env, "bad-request hist ctor")
+      | some (w, cw) =>
+        match (wireCtors srtr csr)[w]? with
+        | none => (env, s!"err InvalidConstructorId ## {op (.ctor idx fields)} ## one-history ## not-aligned:other")
+        | some (idx', cr) =>
+          let exp :=
+            if cr.transient then s!"err {showErr (.deserTransientCtor nr cr.name)}"
+            else match expectedRead cw.decl cr.decl (.list (normFields env cw.decl.fields fields)) with
+              | .ok (.list xs) => s!"ok {showVal (.ctor idx' xs)}"
+              | .ok _ => "err DeserializationFailure"
+              | .error e => s!"err {showErr e}"
+          (env, s!"{exp} ## {op (.ctor idx fields)} ## {if onOneHistory cw.decl cr.decl then "one-history" else "NOT-one-history"} ## {alignmentClass cw.decl cr.decl}")
     | _, _, _ => (env, "bad-request hist")
   | some (.atom "src" :: .atom h :: ops) =>
     match bytesOfHex h with
